@@ -76,6 +76,15 @@ CHECKS.update({
   note="Two-fault plans exclude forged ACKs and T2 delays (a stale ACK is undetectable by E4 itself) and length-byte corruption; no overlapping writers on one connection (a sync.Mutex wait is not a durable block under synctest). A violation is reported only if it reproduces 3/3."),
 })
 
+CHECKS.update({
+ "C07": dict(engine="E2-bubble", cat="exploration", tech=E2,
+  text="Exhaustive enumeration of the stated finite families of histories on a real hsmsss connection in virtual time: every not-selected situation (13 active / 11 passive: never opened, connecting, refused dial, connected-not-selected, deselected, select rejected, separated, T6/T7 expiry, in backoff, between generations, closed, reopened) x every data-sending entry point; every connected-not-selected situation x inbound data frames over kinds, session ids and system bytes; every <= 2-cut (thorough <= 3) segmentation of the select-plus-data streams incl. simultaneous select; the queued-behind-a-blocked-write-then-deselected scenario. Each step compared with exact expected frames, errors, drop-counter deltas, deliveries and link state.",
+  note="Exhaustive only over the listed histories, roles and one timer configuration; the B1/B2 race between a concurrent sender and a deselect is not scheduled (no E3 scenario for it). Trusted: synctest, sim, expected frames written from E37."),
+ "C14": dict(engine="E1-enum + race pass", cat="exploration", tech=E1 + "; resource families in ulimit-bounded worker processes; supporting -race pass",
+  text="Exhaustive enumeration of all token sequences of length <= 4 (quick) / <= 5 plus type-led length 6 (thorough) over a 26-token SML alphabet and all byte strings of length <= 2 (256 values) and 3 (64 bytes), plain and behind 'S1F1 W <', through every public parse entry point, strict and non-strict: no panic; messages xor error; message validity; ParseError offset in range with line/column recomputed from the input; reused parser equals fresh parser. Resource families (nesting depth to 4e6, size hints to 2^63 for all 16 item types, unterminated strings/numbers/comments, n messages) run one point per worker process under ulimit -v: exit status 0, allocation bound, at most quadratic growth of TotalAlloc/Mallocs. Shared state: go/ast scan of package-level vars, concurrent == sequential over a 227-text corpus, free-running -race pass.",
+  note="Exhaustive only over the stated alphabets and family points; resource use judged through deterministic proxies (allocation counters, exit status), CPU-time horizon 60 s doubled once, never a wall-clock verdict; allocation bound 1 MiB + 64*len + len^2. The three genuine defects this check found (size-hint allocation, unbounded recursion, panic after a closing quote) are repaired in /repo (fix: commits f8f2844, c5c42c9, d3552cd)."),
+})
+
 PENDING = {}
 
 
